@@ -21,6 +21,7 @@ import (
 	"verif.local/engine/vquic"
 	"verif.local/engine/vsched"
 	"verif.local/engine/vsync"
+	"verif.local/engine/vtime"
 )
 
 type c06Cfg struct {
@@ -57,6 +58,28 @@ type c06Cfg struct {
 	// independently seeded change C06-7: a QStream.ReadFrom picked up by the no-logger fast path's
 	// io.Copy tested the Read error before the byte count and dropped that final chunk.)
 	TgtEOFWithData bool
+	// FirstReadTimesOut: the HISTORY OF READS on the proxied connection. The application's first
+	// Read runs with a read deadline that has already expired, while (with fast open) the server's
+	// outbound dial is still pending, so not one byte of the response is on the stream: it fails with
+	// a timeout and consumes nothing. The application then lifts the deadline and reads on as usual.
+	// Judged by the property's own clauses: nothing injected, nothing lost - the application receives
+	// exactly the target's bytes. (Added after the independently seeded change C06-10: the fast-open
+	// tcpConn.Read marked the connection established BEFORE parsing the lazily read response, so after
+	// one timed-out Read the next Read handed the raw response frame to the application as target data.)
+	FirstReadTimesOut bool
+}
+
+// c06GatedOutbound: an outbound whose dial takes a while (c06Cfg.FirstReadTimesOut): Outbound.TCP
+// does not return before the harness opens the gate (or the client connection is gone).
+type c06GatedOutbound struct {
+	Outbound
+	e    *vsched.Exec
+	open *bool
+}
+
+func (o c06GatedOutbound) TCP(reqAddr string) (net.Conn, error) {
+	o.e.Point("env", func() bool { return *o.open }, "outbound dial pending")
+	return o.Outbound.TCP(reqAddr)
 }
 
 // c06DecliningHook declines every request; its TCP/UDP methods must never be called.
@@ -131,6 +154,18 @@ func c06Run(e *vsched.Exec, c c06Cfg) {
 			}
 			eofOut = &c06EOFOutbound{Outbound: cfg.Outbound}
 			cfg.Outbound = eofOut
+		}
+	}
+	// the outbound dial completes when the harness says so; without fast open Client.TCP itself
+	// waits for the response, so the dial is held only with fast open
+	dialOpen := !(c.FirstReadTimesOut && c.FastOpen)
+	if c.FirstReadTimesOut {
+		prev := opts.Mutate
+		opts.Mutate = func(cfg *Config) {
+			if prev != nil {
+				prev(cfg)
+			}
+			cfg.Outbound = c06GatedOutbound{Outbound: cfg.Outbound, e: e, open: &dialOpen}
 		}
 	}
 	r := newRig(e, opts)
@@ -253,6 +288,26 @@ func c06Run(e *vsched.Exec, c c06Cfg) {
 				}, "app reads late")
 			}
 			buf := make([]byte, 16)
+			if c.FirstReadTimesOut {
+				// a first Read whose deadline has expired (with fast open: before the server wrote the
+				// first byte of its response); whatever it hands over counts as received. Then the
+				// deadline is lifted, the dial completes and the application reads on.
+				_ = conn.SetReadDeadline(vtime.Now())
+				n, err := conn.Read(buf)
+				appGot.Write(buf[:n])
+				if err == nil {
+					e.Fail("harness: a Read with an expired read deadline returned (%d, nil)", n)
+				}
+				var ne net.Error
+				if !errors.As(err, &ne) || !ne.Timeout() {
+					appReadErr = err
+					appReadDone = true
+					dialOpen = true
+					return
+				}
+				_ = conn.SetReadDeadline(vtime.Time{})
+				dialOpen = true
+			}
 			for {
 				n, err := conn.Read(buf)
 				appGot.Write(buf[:n])
@@ -270,6 +325,7 @@ func c06Run(e *vsched.Exec, c c06Cfg) {
 		}
 		wg.Wait()
 	}
+	dialOpen = true
 	e.WaitIdle()
 
 	// ---- oracle -------------------------------------------------------------------------
@@ -446,6 +502,25 @@ func c06Scenarios(thorough bool) []*explore.Scenario {
 			if !fo {
 				cfgs = append(cfgs, c06Cfg{Name: "race-close" + sfx, AppSend: []string{"a", "bcd"}, TgtSend: []string{"x", "yz0"}, AppClose: "after-writes", TgtClose: "after-writes", Logger: lg, TgtEOFWithData: true})
 			}
+		}
+	}
+	// the history of Reads: the application's first Read times out (with fast open: while the
+	// server's dial is still pending, before the response exists), the deadline is lifted and the
+	// application reads on; fast-open on and off, target-to-client only and both directions. Added
+	// after the independently seeded change C06-10 (tcpConn.Read set Established before parsing the
+	// lazily read response: after a timed-out first Read the raw response frame reached the
+	// application as target data). Cheap, so early.
+	for _, fo := range []bool{true, false} {
+		sfx := fmt.Sprintf("/fastopen=%v/logger=true/first-read-times-out", fo)
+		cfgs = append(cfgs,
+			c06Cfg{Name: "t2c" + sfx, TgtSend: []string{"x", "yz0"}, TgtClose: "after-writes", AppClose: "never", FastOpen: fo, Logger: true, Whole: "t2c", FirstReadTimesOut: true},
+			c06Cfg{Name: "both-appcloses" + sfx, AppSend: []string{"a", "bcd"}, TgtSend: []string{"xyz"}, AppClose: "after-reading-all", TgtClose: "never", FastOpen: fo, Logger: true, Whole: "both", FirstReadTimesOut: true},
+		)
+		if fo {
+			cfgs = append(cfgs,
+				c06Cfg{Name: "both-tgtcloses" + sfx, AppSend: []string{"abc"}, TgtSend: []string{"x", "yz0"}, TgtClose: "after-reading-all", AppClose: "never", FastOpen: fo, Logger: true, Whole: "both", FirstReadTimesOut: true},
+				c06Cfg{Name: "t2c/fastopen=true/logger=false/first-read-times-out", TgtSend: []string{"x", "yz0"}, TgtClose: "after-writes", AppClose: "never", FastOpen: fo, Whole: "t2c", FirstReadTimesOut: true},
+			)
 		}
 	}
 	for _, fo := range []bool{false, true} {
